@@ -173,7 +173,8 @@ def evaluate(sc):
                 break
             if len(set(lines)) != len(lines):
                 dup = [line for line, count in collections.Counter(lines).items() if count > 1]
-                out.append(violation("C07/unique", "C07/unique|duplicate-line", {"file": name, "document": sc["labels"].get(name), "duplicates": dup[:5]}))
+                rule = FAIL_RE.match(dup[0]).group("rule")
+                out.append(violation("C07/unique", "C07/unique|duplicate-line|%s" % rule, {"file": name, "document": sc["labels"].get(name), "duplicates": dup[:5]}))
                 break
     # wrapped -------------------------------------------------------------------
     world = sc["worlds"][0]
